@@ -1,6 +1,841 @@
-pub fn gen(_seed: u64, _thorough: bool) -> Vec<String> {
-    vec![]
+//! C14 — parallel, sequential and fragment-wise encoding produce identical bytes.
+//!
+//! Case kinds
+//!   sup FORMAT                                   encoding support record of a format
+//!   geo FORMAT W H DITH QUALITY                  `SplitView::new` geometry (len, every fragment's offset/height)
+//!   enc FORMAT W H COLOR DITH QUALITY METRIC THREADS ORDER SEED
+//!                                                bytes of `dds::encode` sequential vs parallel (pool of THREADS
+//!                                                workers, fragment completion ORDER imposed through the hook)
+//!                                                vs fragment-by-fragment concatenation
+//!
+//! The oracle is evaluated on the implementation alone: tiling facts of the fragments and byte equality
+//! of the three outputs.  This module also hosts the helpers shared with C17 (format table, image
+//! generator, the scheduling hook and the pool cache).
+use crate::common::*;
+use dds::*;
+use std::sync::{Arc, Condvar, Mutex, OnceLock};
+use std::time::{Duration, Instant};
+
+// ------------------------------------------------------------------------------------------------
+// format / option tables
+
+macro_rules! fmts {
+    ($($n:ident),* $(,)?) => { &[ $( (stringify!($n), Format::$n) ),* ] };
 }
-pub fn run(_line: &str) -> Option<(String, Vec<String>)> {
-    None
+pub const FORMATS: &[(&str, Format)] = fmts!(
+    R8G8B8_UNORM, B8G8R8_UNORM, R8G8B8A8_UNORM, R8G8B8A8_SNORM, B8G8R8A8_UNORM, B8G8R8X8_UNORM,
+    B5G6R5_UNORM, B5G5R5A1_UNORM, B4G4R4A4_UNORM, A4B4G4R4_UNORM, R8_SNORM, R8_UNORM, R8G8_UNORM,
+    R8G8_SNORM, A8_UNORM, R16_UNORM, R16_SNORM, R16G16_UNORM, R16G16_SNORM, R16G16B16A16_UNORM,
+    R16G16B16A16_SNORM, R10G10B10A2_UNORM, R11G11B10_FLOAT, R9G9B9E5_SHAREDEXP, R16_FLOAT,
+    R16G16_FLOAT, R16G16B16A16_FLOAT, R32_FLOAT, R32G32_FLOAT, R32G32B32_FLOAT, R32G32B32A32_FLOAT,
+    R10G10B10_XR_BIAS_A2_UNORM, AYUV, Y410, Y416, R1_UNORM, R8G8_B8G8_UNORM, G8R8_G8B8_UNORM, UYVY,
+    YUY2, Y210, Y216, NV12, P010, P016, BC1_UNORM, BC2_UNORM, BC2_UNORM_PREMULTIPLIED_ALPHA,
+    BC3_UNORM, BC3_UNORM_PREMULTIPLIED_ALPHA, BC4_UNORM, BC4_SNORM, BC5_UNORM, BC5_SNORM, BC6H_UF16,
+    BC6H_SF16, BC7_UNORM, ASTC_4X4_UNORM, ASTC_5X4_UNORM, ASTC_5X5_UNORM, ASTC_6X5_UNORM,
+    ASTC_6X6_UNORM, ASTC_8X5_UNORM, ASTC_8X6_UNORM, ASTC_8X8_UNORM, ASTC_10X5_UNORM,
+    ASTC_10X6_UNORM, ASTC_10X8_UNORM, ASTC_10X10_UNORM, ASTC_12X10_UNORM, ASTC_12X12_UNORM,
+    BC3_UNORM_RXGB, BC3_UNORM_NORMAL,
+);
+
+pub fn parse_format(s: &str) -> Option<Format> {
+    FORMATS.iter().find(|(n, _)| *n == s).map(|(_, f)| *f)
+}
+pub fn encodable() -> Vec<(&'static str, Format)> {
+    FORMATS
+        .iter()
+        .filter(|(_, f)| f.encoding_support().is_some())
+        .copied()
+        .collect()
+}
+pub fn is_bc(name: &str) -> bool {
+    name.starts_with("BC")
+}
+
+pub fn parse_dith(s: &str) -> Option<Dithering> {
+    Some(match s {
+        "none" => Dithering::None,
+        "color" => Dithering::Color,
+        "alpha" => Dithering::Alpha,
+        "all" => Dithering::ColorAndAlpha,
+        _ => return None,
+    })
+}
+pub fn dith_name(d: Dithering) -> &'static str {
+    match d {
+        Dithering::None => "none",
+        Dithering::Color => "color",
+        Dithering::Alpha => "alpha",
+        Dithering::ColorAndAlpha => "all",
+    }
+}
+pub fn parse_quality(s: &str) -> Option<CompressionQuality> {
+    Some(match s {
+        "fast" => CompressionQuality::Fast,
+        "normal" => CompressionQuality::Normal,
+        "high" => CompressionQuality::High,
+        "unr" => CompressionQuality::Unreasonable,
+        _ => return None,
+    })
+}
+pub fn parse_metric(s: &str) -> Option<ErrorMetric> {
+    Some(match s {
+        "uni" => ErrorMetric::Uniform,
+        "perc" => ErrorMetric::Perceptual,
+        _ => return None,
+    })
+}
+pub fn parse_color(s: &str) -> Option<ColorFormat> {
+    let (c, p) = s.split_at(s.len().checked_sub(if s.ends_with('8') { 1 } else { 2 })?);
+    let ch = match c {
+        "g" => Channels::Grayscale,
+        "a" => Channels::Alpha,
+        "rgb" => Channels::Rgb,
+        "rgba" => Channels::Rgba,
+        _ => return None,
+    };
+    let pr = match p {
+        "8" => Precision::U8,
+        "16" => Precision::U16,
+        "32" => Precision::F32,
+        _ => return None,
+    };
+    Some(ColorFormat::new(ch, pr))
+}
+pub const COLORS: &[&str] = &[
+    "g8", "a8", "rgb8", "rgba8", "g16", "a16", "rgb16", "rgba16", "g32", "a32", "rgb32", "rgba32",
+];
+
+pub fn options(d: Dithering, q: CompressionQuality, m: ErrorMetric, parallel: bool) -> EncodeOptions {
+    let mut o = EncodeOptions::default();
+    o.dithering = d;
+    o.quality = q;
+    o.error_metric = m;
+    o.parallel = parallel;
+    o
+}
+
+// ------------------------------------------------------------------------------------------------
+// images
+
+/// Deterministic image content: smooth gradients with seeded noise (so that dithering, refinement and
+/// the block encoders' different modes are all exercised), values in range for the precision.
+pub fn make_image(w: u32, h: u32, color: ColorFormat, seed: u64) -> Vec<u8> {
+    let mut rng = Rng::new(seed ^ 0xC14);
+    let ch = color.channels.count() as usize;
+    let n = w as usize * h as usize;
+    let mut out = Vec::with_capacity(n * color.bytes_per_pixel() as usize);
+    let style = rng.below(3);
+    for i in 0..n {
+        let x = (i % w.max(1) as usize) as f32 / w.max(1) as f32;
+        let y = (i / w.max(1) as usize) as f32 / h.max(1) as f32;
+        for c in 0..ch {
+            let base = match (style, c) {
+                (0, _) => (rng.next() >> 40) as f32 / (1u64 << 24) as f32,
+                (1, 0) => x,
+                (1, 1) => y,
+                (1, 2) => 1.0 - x,
+                (1, _) => 0.5 + 0.5 * (x - y),
+                (_, 3) => {
+                    if rng.chance(1, 4) {
+                        (rng.next() >> 40) as f32 / (1u64 << 24) as f32
+                    } else {
+                        1.0
+                    }
+                }
+                (_, _) => (x * 3.0 + y * 2.0 + c as f32 * 0.3).fract(),
+            };
+            let noise = ((rng.next() >> 40) as f32 / (1u64 << 24) as f32 - 0.5) * 0.06;
+            let v = (base + noise).clamp(0.0, 1.0);
+            match color.precision {
+                Precision::U8 => out.push((v * 255.0 + 0.5) as u8),
+                Precision::U16 => out.extend_from_slice(&((v * 65535.0 + 0.5) as u16).to_ne_bytes()),
+                Precision::F32 => out.extend_from_slice(&v.to_ne_bytes()),
+            }
+        }
+    }
+    out
+}
+
+// ------------------------------------------------------------------------------------------------
+// pools
+
+pub fn pool(n: usize) -> &'static rayon::ThreadPool {
+    static POOLS: OnceLock<Vec<OnceLock<rayon::ThreadPool>>> = OnceLock::new();
+    let v = POOLS.get_or_init(|| (0..=64).map(|_| OnceLock::new()).collect());
+    v[n.min(64)].get_or_init(|| {
+        rayon::ThreadPoolBuilder::new()
+            .num_threads(n.min(64).max(1))
+            .build()
+            .unwrap()
+    })
+}
+
+// ------------------------------------------------------------------------------------------------
+// the scheduling hook
+
+#[derive(Clone, Copy, PartialEq, Eq, Debug)]
+pub enum Order {
+    /// no blocking at all: whatever rayon does
+    Free,
+    Natural,
+    Reversed,
+    Random,
+}
+pub fn parse_order(s: &str) -> Option<Order> {
+    Some(match s {
+        "free" => Order::Free,
+        "nat" => Order::Natural,
+        "rev" => Order::Reversed,
+        "rnd" => Order::Random,
+        _ => return None,
+    })
+}
+
+struct SchedState {
+    /// index into `Sched::epochs`: which `encode_parallel` call (mip level that splits) is running
+    epoch: usize,
+    /// fragments of the current epoch released so far, in release order
+    released: Vec<usize>,
+    /// released flag per fragment
+    flag: Vec<bool>,
+    /// smallest position of the requested order whose fragment is not yet released
+    next: usize,
+    /// fragments currently blocked in the phase-1 callback
+    blocked: Vec<usize>,
+    /// number of submissions that have been observed by the reporter (strict mode), current epoch
+    submitted: usize,
+    /// release orders of the finished epochs
+    history: Vec<Vec<usize>>,
+    /// no more ordering (cancellation requested / safety)
+    open: bool,
+    forced: usize,
+    timeouts: usize,
+    last_change: Instant,
+}
+
+struct Epoch {
+    seq: Vec<usize>,
+    pos: Vec<usize>,
+}
+
+/// Imposes a completion order on the fragment jobs of the `encode_parallel` calls made by one
+/// top-level call (one epoch per mip level that is split into more than one fragment).
+///
+/// A fragment `i` arriving at phase 1 (encoded, not yet submitted) may proceed when every fragment
+/// before it in the requested order has been released (and, in strict mode, the reporter has seen
+/// all earlier submissions).  When all workers of the pool are blocked the requested order is
+/// impossible for this pool: the blocked fragment that is earliest in the requested order is released
+/// instead (`forced`).  A wall-clock timeout is the last resort so that nothing can deadlock.
+pub struct Sched {
+    epochs: Vec<Epoch>,
+    threads: usize,
+    strict: bool,
+    st: Mutex<SchedState>,
+    cv: Condvar,
+}
+
+impl Sched {
+    pub fn new(lens: &[usize], threads: usize, order: Order, seed: u64, strict: bool) -> Arc<Sched> {
+        let mut rng = Rng::new(seed ^ 0x5CED);
+        let epochs: Vec<Epoch> = lens
+            .iter()
+            .map(|&len| {
+                let mut seq: Vec<usize> = (0..len).collect();
+                match order {
+                    Order::Free | Order::Natural => {}
+                    Order::Reversed => seq.reverse(),
+                    Order::Random => {
+                        for i in (1..len).rev() {
+                            let j = rng.below(i as u64 + 1) as usize;
+                            seq.swap(i, j);
+                        }
+                    }
+                }
+                let mut pos = vec![0; len];
+                for (p, &i) in seq.iter().enumerate() {
+                    pos[i] = p;
+                }
+                Epoch { seq, pos }
+            })
+            .collect();
+        let first = lens.first().copied().unwrap_or(0);
+        Arc::new(Sched {
+            epochs,
+            threads,
+            strict,
+            st: Mutex::new(SchedState {
+                epoch: 0,
+                released: vec![],
+                flag: vec![false; first],
+                next: 0,
+                blocked: vec![],
+                submitted: 0,
+                history: vec![],
+                open: order == Order::Free,
+                forced: 0,
+                timeouts: 0,
+                last_change: Instant::now(),
+            }),
+            cv: Condvar::new(),
+        })
+    }
+
+    fn lock(&self) -> std::sync::MutexGuard<'_, SchedState> {
+        self.st.lock().unwrap_or_else(|e| e.into_inner())
+    }
+
+    /// called by the reporter closure (inside `ParallelProgress::submit`)
+    pub fn note_submit(&self) {
+        let mut g = self.lock();
+        g.submitted += 1;
+        drop(g);
+        self.cv.notify_all();
+    }
+    /// stop ordering (used once cancellation has been requested)
+    pub fn open(&self) {
+        let mut g = self.lock();
+        g.open = true;
+        drop(g);
+        self.cv.notify_all();
+    }
+    /// release orders of all epochs so far (the running one last)
+    pub fn released(&self) -> Vec<Vec<usize>> {
+        let g = self.lock();
+        let mut h = g.history.clone();
+        if !g.released.is_empty() {
+            h.push(g.released.clone());
+        }
+        h
+    }
+    pub fn stats(&self) -> (usize, usize) {
+        let g = self.lock();
+        (g.forced, g.timeouts)
+    }
+
+    fn roll(&self, g: &mut SchedState) {
+        while g.epoch < self.epochs.len() && g.released.len() == self.epochs[g.epoch].seq.len() {
+            let done = std::mem::take(&mut g.released);
+            g.history.push(done);
+            g.epoch += 1;
+            let n = self.epochs.get(g.epoch).map(|e| e.seq.len()).unwrap_or(0);
+            g.flag = vec![false; n];
+            g.next = 0;
+            g.submitted = 0;
+            g.blocked.clear();
+        }
+    }
+
+    fn callback(&self, idx: usize, phase: u8) {
+        let mut g = self.lock();
+        self.roll(&mut g);
+        if g.epoch >= self.epochs.len() || idx >= self.epochs[g.epoch].seq.len() || g.flag[idx] {
+            return;
+        }
+        if phase == 0 {
+            return;
+        }
+        let ep = &self.epochs[g.epoch];
+        g.blocked.push(idx);
+        g.last_change = Instant::now();
+        self.cv.notify_all();
+        loop {
+            let synced = !self.strict || g.submitted >= g.released.len();
+            let turn = g.next == ep.pos[idx] && synced;
+            let stuck = g.blocked.len() >= self.threads
+                && g.blocked.iter().all(|&b| ep.pos[b] >= ep.pos[idx])
+                && synced;
+            if g.open || turn {
+                break;
+            }
+            if stuck {
+                g.forced += 1;
+                break;
+            }
+            // last resort: nothing has moved for a while (e.g. a sleeping worker that rayon did not
+            // wake); the earliest blocked fragment goes on
+            if g.last_change.elapsed() > Duration::from_millis(60)
+                && g.blocked.iter().all(|&b| ep.pos[b] >= ep.pos[idx])
+            {
+                g.timeouts += 1;
+                break;
+            }
+            let (g2, _) = self
+                .cv
+                .wait_timeout(g, Duration::from_millis(5))
+                .unwrap_or_else(|e| e.into_inner());
+            g = g2;
+        }
+        g.blocked.retain(|&b| b != idx);
+        g.released.push(idx);
+        g.last_change = Instant::now();
+        g.flag[idx] = true;
+        while g.next < ep.seq.len() && g.flag[ep.seq[g.next]] {
+            g.next += 1;
+        }
+        drop(g);
+        self.cv.notify_all();
+    }
+}
+
+pub fn with_hook<R>(s: &Arc<Sched>, f: impl FnOnce() -> R) -> R {
+    let s2 = s.clone();
+    verif_hook::set_fragment_hook(Some(Arc::new(move |i, ph| s2.callback(i, ph))));
+    struct Reset;
+    impl Drop for Reset {
+        fn drop(&mut self) {
+            verif_hook::set_fragment_hook(None);
+        }
+    }
+    let _r = Reset;
+    f()
+}
+
+// ------------------------------------------------------------------------------------------------
+// cases
+
+const QUALS: &[&str] = &["fast", "normal", "high", "unr"];
+const DITHS: &[&str] = &["none", "color", "alpha", "all"];
+
+/// preferred fragment pixel counts that occur in the crate (bc.rs) — used only to place the size grid
+const THRESHOLDS: &[u64] = &[64, 256, 1024, 2048, 4096];
+
+fn geo_grid(out: &mut Vec<String>, fmts: &[&str], thorough: bool) {
+    let mut widths: Vec<u64> = vec![1, 2, 3, 4, 5, 7, 8, 9, 15, 16, 17, 31, 32, 33, 63, 64, 65, 100];
+    for &t in THRESHOLDS {
+        for d in [t / 8, t / 4, t / 2, t] {
+            for k in [-1i64, 0, 1] {
+                widths.push((d as i64 + k).max(1) as u64);
+            }
+        }
+        widths.push(2 * t + 3);
+    }
+    widths.sort();
+    widths.dedup();
+    for f in fmts {
+        let bc = is_bc(f) && !f.starts_with("BC6");
+        for (qi, q) in QUALS.iter().enumerate() {
+            if !bc && qi > 0 && !thorough {
+                continue;
+            }
+            for &w in &widths {
+                let mut hs: Vec<u64> = (0..=13).collect();
+                for &t in THRESHOLDS {
+                    // heights around the "worth splitting" threshold and around multiples of the
+                    // resulting fragment height
+                    let th = t / w;
+                    for k in 0..=4u64 {
+                        hs.push((th + k).saturating_sub(2));
+                    }
+                    let fh = ((t / w) / 4 * 4).max(4);
+                    for m in 1..=3u64 {
+                        for k in 0..=2u64 {
+                            hs.push((m * fh + k).saturating_sub(1));
+                        }
+                    }
+                }
+                hs.sort();
+                hs.dedup();
+                for &h in &hs {
+                    if w * h > 40_000 {
+                        continue;
+                    }
+                    let ds: &[&str] = if (w + h) % 7 == 0 || (!bc && h < 3) { DITHS } else { &["none"] };
+                    for d in ds {
+                        out.push(format!("geo {f} {w} {h} {d} {q}"));
+                    }
+                }
+            }
+        }
+    }
+}
+
+pub fn gen(seed: u64, thorough: bool) -> Vec<String> {
+    let mut out = vec![];
+    let mut rng = Rng::new(seed);
+    // 1. support records of all 73 formats
+    for (n, _) in FORMATS {
+        out.push(format!("sup {n}"));
+    }
+    out.push("sup NOPE".into());
+    // 2. geometry
+    let quick_fmts = [
+        "BC1_UNORM", "BC2_UNORM", "BC3_UNORM", "BC3_UNORM_RXGB", "BC4_SNORM", "BC5_UNORM", "BC7_UNORM",
+        "R8G8B8A8_UNORM", "B5G6R5_UNORM", "R1_UNORM", "YUY2", "NV12", "BC6H_UF16", "ASTC_4X4_UNORM",
+    ];
+    let all: Vec<&str> = FORMATS.iter().map(|(n, _)| *n).collect();
+    if thorough {
+        geo_grid(&mut out, &all, true);
+    } else {
+        geo_grid(&mut out, &quick_fmts, false);
+    }
+    // random geometry (all formats)
+    let n_rand = if thorough { 60_000 } else { 4_000 };
+    for _ in 0..n_rand {
+        let f = rng.pick(&all);
+        let (w, h) = match rng.below(4) {
+            0 => (rng.range(1, 70), rng.range(0, 600)),
+            1 => (rng.range(1, 9000), rng.range(0, 9)),
+            2 => {
+                let t = *rng.pick(THRESHOLDS);
+                let w = rng.range(1, 130);
+                (w, (t / w + rng.below(5)).saturating_sub(2))
+            }
+            _ => (rng.range(0, 300), rng.range(0, 130)),
+        };
+        if w * h > 60_000 {
+            continue;
+        }
+        out.push(format!("geo {f} {w} {h} {} {}", rng.pick(DITHS), rng.pick(QUALS)));
+    }
+    // 3. encodes (interleaved with the cheap geometry cases below so that check.py's chunks balance)
+    let cheap = std::mem::take(&mut out);
+    let enc_fmts = encodable();
+    let family_reps = [
+        "BC1_UNORM", "BC2_UNORM", "BC3_UNORM", "BC3_UNORM_RXGB", "BC3_UNORM_NORMAL", "BC4_UNORM",
+        "BC5_SNORM", "BC7_UNORM", "BC2_UNORM_PREMULTIPLIED_ALPHA", "R8G8B8A8_UNORM", "B5G6R5_UNORM",
+        "R16G16B16A16_FLOAT", "R32G32B32_FLOAT", "R9G9B9E5_SHAREDEXP", "R1_UNORM", "YUY2", "Y210", "NV12",
+        "P010", "AYUV", "B8G8R8A8_UNORM", "A8_UNORM",
+    ];
+    let threads_all = [1usize, 2, 3, 4, 5, 6, 7, 8, 9, 10, 11, 12, 13, 14, 15, 16];
+    let orders = ["nat", "rev", "rnd", "free"];
+    let n_enc = if thorough { 120_000 } else { 9_000 };
+    let mut k = 0u64;
+    while (out.len() as u64) < u64::MAX && k < n_enc {
+        k += 1;
+        let name: &str = if thorough || k % 4 == 0 {
+            enc_fmts[(k as usize / 4) % enc_fmts.len()].0
+        } else {
+            family_reps[(k as usize) % family_reps.len()]
+        };
+        let bc = is_bc(name);
+        let q = if !bc {
+            *rng.pick(QUALS)
+        } else if k % 9 == 0 {
+            "normal"
+        } else if thorough && k % 97 == 0 {
+            "high"
+        } else {
+            "fast"
+        };
+        // size: BC -> around / beyond the fragment threshold of the quality; others small
+        let t: u64 = match (name, q) {
+            (n, _) if n.starts_with("BC7") => 256,
+            (_, "fast") => 4096,
+            (n, "normal") if n.starts_with("BC4") || n.starts_with("BC5") => 2048,
+            (_, "normal") => 1024,
+            (n, "high") if n.starts_with("BC4") || n.starts_with("BC5") => 1024,
+            _ => 256,
+        };
+        let (mut w, mut h) = if bc {
+            match rng.below(6) {
+                0 => (t + rng.range(1, 40), rng.range(1, 14)), // wider than a fragment
+                1 => {
+                    let w = rng.range(1, 70);
+                    (w, (t / w + rng.below(6)).saturating_sub(2)) // at the threshold
+                }
+                2 => {
+                    let w = rng.range(3, 66);
+                    (w, rng.range(2, 6) * (t / w).max(4) + rng.below(4)) // a few fragments
+                }
+                3 => {
+                    let w = rng.range(13, 40);
+                    (w, rng.range(8, 24) * (t / w).max(4) + rng.below(4)) // many fragments
+                }
+                4 => (rng.range(1, 20), rng.range(1, 20)),
+                _ => (rng.range(1, 200), rng.range(1, 200)),
+            }
+        } else {
+            match rng.below(3) {
+                0 => (rng.range(1, 40), rng.range(1, 40)),
+                1 => (rng.range(500, 1100), rng.range(1, 6)),
+                _ => (rng.range(1, 6), rng.range(500, 1100)),
+            }
+        };
+        if w * h > 140_000 {
+            h = 140_000 / w;
+        }
+        // size multiples (sub-sampled / bi-planar formats refuse other sizes; that is C15's subject)
+        if let Some((mw, mh)) = parse_format(name).and_then(|f| f.encoding_support()).and_then(|s| s.size_multiple()) {
+            w = (w / mw.get() as u64).max(1) * mw.get() as u64;
+            h = (h / mh.get() as u64).max(1) * mh.get() as u64;
+        }
+        let color = if rng.chance(1, 2) { "rgba8" } else { *rng.pick(COLORS) };
+        let d = if rng.chance(2, 5) { "none" } else { *rng.pick(DITHS) };
+        let m = if rng.chance(1, 4) { "perc" } else { "uni" };
+        let th = threads_all[(k as usize) % 16];
+        let o = orders[(k as usize / 16) % 4];
+        out.push(format!("enc {name} {w} {h} {color} {d} {q} {m} {th} {o} {}", rng.below(1 << 30)));
+    }
+    // empty images
+    for name in ["BC1_UNORM", "R8G8B8A8_UNORM", "BC7_UNORM"] {
+        out.push(format!("enc {name} 0 0 rgba8 none fast uni 4 nat 1"));
+        out.push(format!("enc {name} 0 7 rgba8 all fast uni 4 rev 1"));
+    }
+    let heavy = out;
+    let mut out = Vec::with_capacity(cheap.len() + heavy.len());
+    let step = (cheap.len() / heavy.len().max(1)).max(1);
+    let mut hi = heavy.into_iter();
+    for (i, c) in cheap.into_iter().enumerate() {
+        out.push(c);
+        if (i + 1) % step == 0 {
+            if let Some(h) = hi.next() {
+                out.push(h);
+            }
+        }
+    }
+    out.extend(hi);
+    out
+}
+
+// ------------------------------------------------------------------------------------------------
+// run
+
+pub fn run(line: &str) -> Option<(String, Vec<String>)> {
+    let t = toks(line);
+    match *t.first()? {
+        "sup" if t.len() == 2 => run_sup(t[1]),
+        "geo" if t.len() == 6 => run_geo(&t),
+        "enc" if t.len() == 11 => run_enc(&t),
+        _ => None,
+    }
+}
+
+fn run_sup(name: &str) -> Option<(String, Vec<String>)> {
+    let f = match parse_format(name) {
+        Some(f) => f,
+        None => return Some(("bad-case".into(), vec![])),
+    };
+    let mut orc = vec![];
+    let r = match f.encoding_support() {
+        None => "sup none".to_string(),
+        Some(s) => {
+            if s.dithering() == Dithering::None && s.local_dithering() {
+                orc.push("local_dithering without dithering support".to_string());
+            }
+            format!(
+                "sup split={} local={} dith={}",
+                s.split_height().map(|x| x.get().to_string()).unwrap_or("-".into()),
+                s.local_dithering() as u8,
+                dith_name(s.dithering())
+            )
+        }
+    };
+    Some((r, orc))
+}
+
+pub fn fmt_frags(frags: &[(u64, u64)]) -> String {
+    let f = |x: &(u64, u64)| format!("{}:{}", x.0, x.1);
+    if frags.len() <= 48 {
+        frags.iter().map(f).collect::<Vec<_>>().join(",")
+    } else {
+        let n = frags.len();
+        format!(
+            "{},{},{},..,{},{}",
+            f(&frags[0]),
+            f(&frags[1]),
+            f(&frags[2]),
+            f(&frags[n - 2]),
+            f(&frags[n - 1])
+        )
+    }
+}
+
+/// offsets/heights of all fragments of a split view + the tiling facts the property states
+pub fn split_geometry(
+    image: ImageView,
+    format: Format,
+    opts: &EncodeOptions,
+    orc: &mut Vec<String>,
+) -> (u32, Vec<(u64, u64)>) {
+    let split = SplitView::new(image, format, opts);
+    let len = split.len();
+    let mut frags = vec![];
+    if len == 0 {
+        orc.push("SplitView::len() == 0".into());
+    }
+    let base = image.data().as_ptr() as usize;
+    let pitch = image.row_pitch();
+    let mut next_row: u64 = 0;
+    let sh = format.encoding_support().and_then(|s| s.split_height()).map(|x| x.get() as u64);
+    for i in 0..len {
+        match split.get(i) {
+            None => orc.push(format!("fragment {i} of {len} missing")),
+            Some(fr) => {
+                // the fragment's first row as an offset into the parent image
+                let off = if fr.size().is_empty() || pitch == 0 {
+                    next_row
+                } else {
+                    ((fr.data().as_ptr() as usize - base) / pitch) as u64
+                };
+                let fh = fr.height() as u64;
+                if !fr.size().is_empty() && (fr.data().as_ptr() as usize - base) % pitch != 0 {
+                    orc.push(format!("fragment {i} does not start at a row start"));
+                }
+                if fr.width() != image.width() && !fr.size().is_empty() {
+                    orc.push(format!("fragment {i} has width {} != {}", fr.width(), image.width()));
+                }
+                if off != next_row {
+                    orc.push(format!("fragment {i} starts at row {off}, expected {next_row} (gap or overlap)"));
+                }
+                if i + 1 < len {
+                    match sh {
+                        Some(sh) if fh % sh == 0 => {}
+                        _ => orc.push(format!(
+                            "fragment {i} (not the last) has height {fh}, not a multiple of split height {sh:?}"
+                        )),
+                    }
+                }
+                next_row = off + fh;
+                frags.push((off, fh));
+            }
+        }
+    }
+    if next_row != image.height() as u64 {
+        orc.push(format!("fragments cover rows [0,{next_row}) of {}", image.height()));
+    }
+    if split.get(len).is_some() {
+        orc.push("get(len) is Some".into());
+    }
+    if split.single().is_some() != (len == 1) {
+        orc.push("single() disagrees with len() == 1".into());
+    }
+    (len, frags)
+}
+
+fn run_geo(t: &[&str]) -> Option<(String, Vec<String>)> {
+    let format = match parse_format(t[1]) {
+        Some(f) => f,
+        None => return Some(("bad-case".into(), vec![])),
+    };
+    let (w, h) = (p_u32(t[2])?, p_u32(t[3])?);
+    let d = parse_dith(t[4])?;
+    let q = parse_quality(t[5])?;
+    if w as u64 * h as u64 > 1 << 26 {
+        return None;
+    }
+    let data = vec![0u8; w as usize * h as usize];
+    let image = ImageView::new(&data, Size::new(w, h), ColorFormat::GRAYSCALE_U8)?;
+    let opts = options(d, q, ErrorMetric::Uniform, true);
+    let mut orc = vec![];
+    let (len, frags) = split_geometry(image, format, &opts, &mut orc);
+    // `parallel` must not matter for the geometry
+    let opts2 = options(d, q, ErrorMetric::Perceptual, false);
+    let (len2, frags2) = split_geometry(image, format, &opts2, &mut vec![]);
+    if len2 != len || frags2 != frags {
+        orc.push("geometry depends on parallel / error metric".into());
+    }
+    Some((format!("geo len={len} frags={}", fmt_frags(&frags)), orc))
+}
+
+fn hexdiff(a: &[u8], b: &[u8]) -> String {
+    if a.len() != b.len() {
+        return format!("lengths {} vs {}", a.len(), b.len());
+    }
+    match a.iter().zip(b).position(|(x, y)| x != y) {
+        Some(p) => format!("first difference at byte {p} of {}", a.len()),
+        None => "equal".into(),
+    }
+}
+
+fn run_enc(t: &[&str]) -> Option<(String, Vec<String>)> {
+    let format = match parse_format(t[1]) {
+        Some(f) => f,
+        None => return Some(("bad-case".into(), vec![])),
+    };
+    let (w, h) = (p_u32(t[2])?, p_u32(t[3])?);
+    let color = parse_color(t[4])?;
+    let d = parse_dith(t[5])?;
+    let q = parse_quality(t[6])?;
+    let m = parse_metric(t[7])?;
+    let threads = p_usize(t[8])?;
+    let order = parse_order(t[9])?;
+    let seed = p_u64(t[10])?;
+    if threads == 0 || threads > 64 || w as u64 * h as u64 > 1 << 24 {
+        return None;
+    }
+    let data = make_image(w, h, color, seed);
+    let image = ImageView::new(&data, Size::new(w, h), color)?;
+    let mut orc = vec![];
+
+    let seq_opts = options(d, q, m, false);
+    let par_opts = options(d, q, m, true);
+
+    // sequential
+    let mut seq = Vec::new();
+    let r_seq = encode(&mut seq, image, format, None, &seq_opts);
+
+    // geometry (tiling facts on this very image)
+    let (len, frags) = split_geometry(image, format, &par_opts, &mut orc);
+
+    // parallel, inside a pool of the requested size, completion order imposed through the hook
+    let sched = Sched::new(&[len as usize], threads, order, seed, false);
+    let mut par = Vec::new();
+    let r_par = with_hook(&sched, || pool(threads).install(|| encode(&mut par, image, format, None, &par_opts)));
+    let released = sched.released().into_iter().next().unwrap_or_default();
+    if std::env::var("DDSV_SCHED_STATS").is_ok() {
+        let (f, to) = sched.stats();
+        eprintln!("sched len={len} threads={threads} order={order:?} forced={f} timeouts={to} released={released:?}");
+    }
+    if len > 1 && r_par.is_ok() && released.len() != len as usize {
+        orc.push(format!("hook saw {} of {len} fragment completions", released.len()));
+    }
+
+    // fragment by fragment
+    let split = SplitView::new(image, format, &seq_opts);
+    let mut frag = Vec::new();
+    let mut frag2 = Vec::new();
+    let mut r_frag = Ok(());
+    for i in 0..split.len() {
+        let fr = split.get(i)?;
+        if let Err(e) = encode(&mut frag, fr, format, None, &seq_opts) {
+            r_frag = Err(e);
+            break;
+        }
+        // the same fragment through the parallel entry point (it may split again)
+        let r2 = pool(threads).install(|| encode(&mut frag2, fr, format, None, &par_opts));
+        if r2.is_err() {
+            r_frag = r2;
+            break;
+        }
+    }
+
+    let status = |r: &Result<(), EncodingError>| match r {
+        Ok(()) => "ok".to_string(),
+        Err(e) => format!("err:{}", crate::c17::err_name(e)),
+    };
+    if status(&r_seq) != status(&r_par) || status(&r_seq) != status(&r_frag) {
+        orc.push(format!(
+            "results differ: sequential {} parallel {} fragment-wise {}",
+            status(&r_seq),
+            status(&r_par),
+            status(&r_frag)
+        ));
+    }
+    let mut res = format!("enc {} len={len} frags={}", status(&r_seq), fmt_frags(&frags));
+    if r_seq.is_ok() {
+        let e1 = seq == par;
+        let e2 = seq == frag;
+        let e3 = seq == frag2;
+        if !e1 {
+            orc.push(format!(
+                "parallel bytes != sequential bytes ({}; {threads} threads, completion order {released:?})",
+                hexdiff(&seq, &par)
+            ));
+        }
+        if !e2 {
+            orc.push(format!("fragment-wise bytes != sequential bytes ({})", hexdiff(&seq, &frag)));
+        }
+        if !e3 {
+            orc.push(format!(
+                "fragment-wise (parallel entry) bytes != sequential bytes ({})",
+                hexdiff(&seq, &frag2)
+            ));
+        }
+        res += &format!(
+            " par={} frag={}",
+            if e1 { "eq" } else { "ne" },
+            if e2 && e3 { "eq" } else { "ne" }
+        );
+    }
+    Some((res, orc))
 }
